@@ -9,5 +9,5 @@ import AmVerif.Props.C04
 import AmVerif.Props.C11
 import AmVerif.Props.C05
 import AmVerif.Props.C17
--- AmVerif.Props.C08 / AmVerif.Props.C15: import here once the `fix:` commits F-C08a/b, F-C09, F-C15 are in /repo. Their `*_cfg_*`
--- theorems are false of the defective source on purpose, which would make `./check setup` fail; `./check C08|C15` builds them directly.
+import AmVerif.Props.C08
+import AmVerif.Props.C15
